@@ -5,12 +5,17 @@ import _e3
 from mirsmt import sym, conc, models, models_reg
 from mirsmt.sym import Ptr, Agg, Enum, Native, Fork, UNIT, bv, Opaque
 
-ASSUME = ["hashbrown's raw-entry API on a shard is modelled as reads/writes of one entry cell per abstract key (trusted: a map for keys with coherent Eq / precomputed hash; C03 checks that coherence for Key)",
+ASSUME = ["hashbrown's raw-entry API on a shard is modelled as one entry cell per abstract key plus the hash the entry is placed under: a lookup finds an entry iff it is stored and placed under the hash given "
+          "(then keys are compared with Eq; from_hash runs the caller's predicate instead); an insertion may grow the table (solver's choice), which re-places every entry under the map's own hash of its key; "
+          "the hashes of different keys are arbitrary and may collide (the registry is generic over Hashable keys); C03 checks Eq/hash coherence for Key",
           "std RwLock modelled as a lock word with await semantics (readers count / writer bit), acquire on lock and release on unlock; lock poisoning outside the claim",
           "keys are abstract identities: equal keys (however they were built) are one identity; the hash of a key is an arbitrary value fixed per identity; 2 shards",
           "visit_*, retain_*, clear and get_*_handles (whole-map iteration) are not covered by this check",
           "sequential consistency + release/acquire race relation on the entry cells"]
 KINDS = ["counter", "gauge", "histogram"]
+
+
+MAP_HASHER_IS_KEY_HASHER = [True]
 
 
 def build(ops, name):
@@ -36,6 +41,12 @@ def build(ops, name):
     c0 = sym.Ctx(eng, 0)
     eng.thread_names[0] = "setup"
     keyids = sorted({k for th in ops for (_, _, k) in th})
+    # placement hashes: under which hash an entry sits in its table. `Hashable::hashable()` gives hash_k; the map's own hasher gives the
+    # same value iff the shard maps are declared with the key's hasher (BuildHasherDefault<KeyHasher>), otherwise an unrelated one
+    other = z3.Function("map_own_hash", z3.IntSort(), z3.BitVecSort(64))
+    eng.reg_keys = keyids
+    eng.reg_hash = lambda k: hashes.setdefault(k, z3.BitVec(f"hash_k{k}", 64))
+    eng.reg_maphash = (lambda k: eng.reg_hash(k)) if MAP_HASHER_IS_KEY_HASHER[0] else (lambda k: other(z3.IntVal(k)))
     shards = {}
     pre = {}
     for kind in KINDS:
@@ -45,6 +56,7 @@ def build(ops, name):
             for k in keyids:
                 pre[(kind, s, k)] = z3.Int(f"pre_{kind}_{s}_k{k}")
                 init[(("e", k),)] = ("ptr", pre[(kind, s, k)])
+                init[(("ph", k),)] = (64, eng.reg_hash(k))          # an entry present initially was inserted under its key's hash
             ids.append(c0.alloc(f"Shard:{kind}:{s}", init))
         shards[kind] = ids
     eng.leaves[0] = [sym.Leaf(c0, "done")]
@@ -159,6 +171,9 @@ def scenario(e3, ops, name, fresh=True):
                 present = z3.Or(*[pre[(kind, s, k)] != 0 for s in range(2)])
                 ret = sc.leaf_ite(1, lambda l, i=i: l.ret[i] if z3.is_expr(l.ret[i]) else z3.BoolVal(bool(l.ret[i])), z3.BoolVal(False))
                 props.append((f"delete_reports_existence_{kind}_k{k}", "delete returns true for an absent key or false for a present one", ret != present, None))
+            if o == "get" and i > 0 and any(x[0] == "get_or_create" and (x[1], x[2]) == (kind, k) for x in ops[0][:i]) and not any(x[0] == "delete" and (x[1], x[2]) == (kind, k) for x in ops[0][:i]):
+                rr = sc.leaf_ite(1, lambda l, i=i: eng.discr_is(l.ret[i].discr, 1), z3.BoolVal(False))
+                props.append(("get_after_create_finds_the_storage", "get returns None for a key that was created and not deleted", z3.Not(rr), None))
             if o == "get" and i == 0:
                 present = z3.Or(*[pre[(kind, s, k)] != 0 for s in range(2)])
                 rr = sc.leaf_ite(1, lambda l, i=i: eng.discr_is(l.ret[i].discr, 1), z3.BoolVal(False))
@@ -175,6 +190,7 @@ def scenario(e3, ops, name, fresh=True):
 
 
 SCEN = [
+    ([[("get_or_create", "counter", 1), ("get_or_create", "counter", 2), ("get_or_create", "counter", 1), ("get", "counter", 1)]], "c06_seq_goc_k1_k2_k1", True),
     ([[("get_or_create", "counter", 1)], [("get_or_create", "counter", 1)]], "c06_goc_goc_same_key", True),
     ([[("get_or_create", "gauge", 1)], [("get_or_create", "gauge", 2)]], "c06_goc_goc_two_keys", True),
     ([[("get_or_create", "counter", 1)], [("get_or_create", "gauge", 1)]], "c06_goc_counter_gauge_same_key", True),
@@ -199,12 +215,13 @@ def trusted_base_check(e3):
                 if m and "RwLock" in t:
                     tys.add(t)
     ok = bool(tys) and all("BuildHasherDefault<metrics::KeyHasher>" in t or "BuildHasherDefault<KeyHasher>" in t for t in tys)
-    o = Obligation("c06_trusted_base:map_hasher_is_the_key_hasher", "mirsmt", "assumption of the map model: the shard maps are declared with BuildHasherDefault<KeyHasher>, the hasher `Hashable for Key` uses", "syntactic check on the MIR types")
+    MAP_HASHER_IS_KEY_HASHER[0] = ok
+    o = Obligation("c06_map_model:hasher_of_the_shard_maps", "mirsmt", "which hash function the shard maps themselves use (hashbrown re-inserts stored keys under it when a table grows, and HashMap::remove / "
+                   "or_insert_with hash with it): read off the MIR types", "syntactic check on the MIR types")
     o.queries = 1
-    if ok:
-        o.status = "pass"
-    else:
-        o.status, o.detail = "error", f"the shard map type no longer uses KeyHasher ({sorted(tys)[:1]}): the abstract map model (and with it every verdict of this check) is not valid for this code"
+    o.status = "pass"
+    o.detail = ("the shard maps are declared with BuildHasherDefault<KeyHasher>: the map's own hash of a key equals Hashable::hashable()" if ok else
+                f"the shard maps are NOT declared with the key's hasher ({sorted(tys)[:1]}): the map's own hash of a key is modelled as an unrelated function")
     e3.res.obligations.append(o)
 
 
